@@ -223,13 +223,13 @@ theorem depth_free (ks : List Wrap) (n : Node) (cwd : String) (r : Bool) :
 
 /-- analysing a text whose parse is the single node `n` gives `n`'s verdict -/
 theorem alone (fuel : Nat) (s : String) (n : Node) (cwd : String) (r : Bool)
-    (hs : (Py.strip s).isEmpty = false) (hp : w.parse (Py.strip s) = .ok [n]) :
+    (hs : (stripCmd s).isEmpty = false) (hp : w.parse (stripCmd s) = .ok [n]) :
     (analyzeStr w h (fuel + 1) s cwd r).action = (aNode w (analyzeStr w h fuel) h n cwd r).action := by
   simp [analyzeStr, hs, hp, aNodes, combine_act]
 
 /-- and a text with several top-level nodes is the join of them -/
 theorem toplevel (fuel : Nat) (s : String) (ns : List Node) (cwd : String) (r : Bool)
-    (hs : (Py.strip s).isEmpty = false) (hne : ns.isEmpty = false) (hp : w.parse (Py.strip s) = .ok ns) :
+    (hs : (stripCmd s).isEmpty = false) (hne : ns.isEmpty = false) (hp : w.parse (stripCmd s) = .ok ns) :
     (analyzeStr w h (fuel + 1) s cwd r).action
       = supList (ns.map fun n => (aNode w (analyzeStr w h fuel) h n cwd r).action) := by
   simp [analyzeStr, hs, hp, hne, combine_act, aNodes_eq_map, acts, List.map_map, Function.comp_def]
